@@ -62,6 +62,7 @@ structure SelInv (start : Nat × Nat) (md : Option Bytes) (w : Writer) (g : GGho
   sync   : Sync w ra
   mdat   : w.metadata = md
   idxlen : w.idxs.length = g.closed.length + 1
+  idx0   : w.idxs[0]? = some 0
   good   : GoodCuts start md w.idxs (g.closed ++ [g.cur])
   contig : contig 0 L = true
   agree  : Agree start.1 L ra.ents
@@ -199,7 +200,8 @@ theorem SelInv.call {start : Nat × Nat} {md : Option Bytes} {w : Writer} {g : G
   rcases call_struct h.inv c hc with ⟨hI', hidx⟩ | ⟨hI', hidx⟩
   · -- the call stays in the current segment
     refine ⟨g.add (callItems c), ra', hsp, ?_⟩
-    refine { inv := hI', sem := ?_, sync := hsy', mdat := hmd', idxlen := by rw [hidx]; exact h.idxlen, good := ?_,
+    refine { inv := hI', sem := ?_, sync := hsy', mdat := hmd', idxlen := by rw [hidx]; exact h.idxlen,
+             idx0 := by rw [hidx]; exact h.idx0, good := ?_,
              contig := f1, agree := f2, len := f3, enti := f4, kept := f5, seenOk := f6, seenK := f7 }
     · rw [GGhost.add_all, applyItems_append, h.sem]
       simp only
@@ -215,7 +217,8 @@ theorem SelInv.call {start : Nat × Nat} {md : Option Bytes} {w : Writer} {g : G
       simp only
       rw [hitems, hsp]
     have hra' : ra'.metadata = md := by rw [hsy'.mdat, hmd']
-    refine { inv := hI', sem := ?_, sync := hsy', mdat := hmd', idxlen := ?_, good := ?_,
+    refine { inv := hI', sem := ?_, sync := hsy', mdat := hmd', idxlen := ?_,
+             idx0 := by rw [hidx, List.getElem?_append_left (by rw [h.idxlen]; omega)]; exact h.idx0, good := ?_,
              contig := f1, agree := f2, len := f3, enti := f4, kept := f5, seenOk := f6, seenK := f7 }
     · have hall' : ({ closed := g.closed ++ [g.cur ++ callItems c], cur := cutItems w.metadata (w.call c).state } : GGhost).all =
           (g.all ++ callItems c) ++ cutItems w.metadata (w.call c).state := by
